@@ -198,12 +198,69 @@ def plan(tier, seed):
     for ch in range(8):
         jobs.append(("windows", ch, 8, 400))
     jobs.append(("optwire", seed, 300))
+    jobs.append(("pools", seed, 200))
     return jobs
 
 
 def run_job(job):
     env.quiet()
-    return {"bams": job_bams, "refcheck": job_refcheck, "windows": job_windows, "optwire": job_optwire}[job[0]](job)
+    return {"bams": job_bams, "refcheck": job_refcheck, "windows": job_windows, "optwire": job_optwire, "pools": job_pools}[job[0]](job)
+
+
+def job_pools(job):
+    """--sample-pool: every assignment of 4 samples to <= 3 pools, the file's lines in every order (members of a pool need not be adjacent), a sample in
+    two pools, one pool of everything, no pooling: each pool is fed by exactly the (sample, alignment file) pairs of its members, in file order"""
+    from mchap.application.arguments import parse_sample_pools
+
+    r = Result()
+    payload = {"kind": "job", "job": job}
+    d = env.scratch_dir("c06p")
+    samples = ["S1", "S2", "S3", "S4"]
+    bams = {s: "/data/%s.bam" % s for s in samples}
+    # no pooling / one pool of all samples
+    got = parse_sample_pools(list(samples), dict(bams), None)
+    r.evaluations += 1
+    if got != (samples, {s: [(s, bams[s])] for s in samples}):
+        r.violation("pools|none", "without --sample-pool every sample must be its own pool: %r" % (got,), payload)
+    got = parse_sample_pools(list(samples), dict(bams), "EVERYTHING")
+    r.evaluations += 1
+    if got != (["EVERYTHING"], {"EVERYTHING": [(s, bams[s]) for s in samples]}):
+        r.violation("pools|all", "a pool name that is not a file must pool all samples in order: %r" % (got,), payload)
+    path = os.path.join(str(d), "pools.txt")
+    cases = []
+    for labels in itertools.product("ABC", repeat=4):
+        for perm in itertools.permutations(range(4)):
+            cases.append([(samples[i], "P" + labels[i]) for i in perm])
+    # a sample that belongs to two pools (extra line in every position)
+    for labels in (("A", "B", "A", "B"), ("A", "A", "B", "C")):
+        base = [(samples[i], "P" + labels[i]) for i in range(4)]
+        for pos in range(5):
+            for extra in (("S1", "PB"), ("S3", "PC")):
+                if extra not in base:
+                    cases.append(base[:pos] + [extra] + base[pos:])
+    for lines in cases:
+        with open(path, "w") as f:
+            for s_, p_ in lines:
+                f.write("%s\t%s\n" % (s_, p_))
+        pools_want = []
+        members = {}
+        for s_, p_ in lines:
+            if p_ not in members:
+                pools_want.append(p_)
+                members[p_] = []
+            members[p_].append((s_, bams[s_]))
+        r.evaluations += 1
+        r.nontrivial += 1
+        try:
+            pools, pool_bams = parse_sample_pools(list(samples), dict(bams), path)
+        except Exception as e:  # noqa
+            r.violation("pools|exception|%s" % type(e).__name__, "%s: %s for the pool file %r" % (type(e).__name__, e, lines), payload)
+            continue
+        if list(pools) != pools_want or {k: list(v) for k, v in pool_bams.items()} != members:
+            r.violation("pools|members", "pool file %r gives pools %r with members %r, expected %r with %r" % (lines, list(pools), dict(pool_bams), pools_want, members), payload)
+        r.outcome((tuple(pools_want), tuple(len(members[p_]) for p_ in pools_want)))
+    r.sample({"pool_files": len(cases), "samples": samples}, cap=1)
+    return r
 
 
 def job_optwire(job):
